@@ -44,6 +44,11 @@ def main(argv):
         ctx.violation("E1", "the correspondence run of this check aborted: " + tb.strip().splitlines()[-1][:200], None,
                       found_input=False, traceback=tb[-3000:])
         ctx.notes.append("check aborted by an exception inside the harness; coverage counts are those reached before the abort")
+        if ctx.discharged == 0:                  # (the proof obligations do not depend on the implementation)
+            try:
+                ctx.prove()
+            except Exception:                    # noqa: BLE001
+                pass
         ctx.obligations += 1                     # the obligation "the correspondence run completes" is not discharged
         ctx.obligation_names.append("correspondence run completes (NOT discharged: aborted)")
         return ctx.finish(assumptions=["(run aborted)"], trusted=["harness (aborted run)"])
